@@ -12,7 +12,7 @@ N = {"quick": 3000, "thorough": 100000}
 LEVEL_RULE = ("one helper per case: scale (old/new ranges incl. reversed new ranges, |curve shape| <= 20, three ordered values incl. "
               "both bounds), scale_sequence_to_sum (fractions, zero sums, negative entries), find_closest_index/item (unsorted data "
               "with ties and duplicates, key variant), nested get/set/delete (depth <= 4, bad paths), cyclic_permutations, "
-              "accumulate_from_n, uniqify_sequence, find_numbers_which_sums_up_to (default and explicit arguments; candidates sorted and unsorted, zero and negative ones), attribute / "
+              "accumulate_from_n, uniqify_sequence, round_floats (exact dyadic floats incl. decimal ties, ints and Fractions), find_numbers_which_sums_up_to (default and explicit arguments; candidates sorted and unsorted, zero and negative ones), attribute / "
               "dictionary extraction, compute_lazy (call histories <= 15 with repeats on one temp file, forced and unforced, call "
               "counter). non-trivial = ties/duplicates present, a repeat after a change in a history, nesting depth >= 3, curve shape != 0")
 ASSUMPTIONS = ["integers / fractions as data (exact arithmetic on both sides); scale is compared in binary64 within 1e-9 relative",
@@ -45,7 +45,19 @@ def paths(n, acc=()):
 
 def gen(seed, index):
     rng = rng_for(PID, seed, index)
-    k = rng.choice(["scale", "scale", "sss", "closest", "closest", "nget", "nset", "ndel", "cyc", "acc", "uniq", "sums", "attr", "kwarg", "chronon", "lazy", "lazy"])
+    k = rng.choice(["scale", "scale", "sss", "closest", "closest", "nget", "nset", "ndel", "cyc", "acc", "uniq", "sums", "attr", "kwarg", "chronon", "lazy", "lazy", "round"])
+    if k == "round":
+        digits = rng.choice([0, 1, 2, 3, 10, 10])
+        r = rng.random()
+        if r < 0.12:
+            return ["round", ["q", rng.randint(-50, 50), 1], digits, "int"]
+        if r < 0.2:
+            return ["round", ["q", rng.randint(-50, 50), rng.choice([3, 7, 10])], digits, "frac"]
+        # floats as exact dyadic rationals: decimal-looking values, exact ties (x.5, x.25 at fewer digits), tiny residues
+        x = rng.choice([rng.randint(-10**6, 10**6) / rng.choice([10, 100, 1000, 10**5]), rng.randint(-64, 64) / rng.choice([2, 4, 8, 16]),
+                        rng.uniform(-100, 100), rng.randint(0, 10**11) / 10**10 + rng.choice([0, 4e-11, 5e-11, 6e-11]), 0.1 + 0.2])
+        f = Fraction(x)
+        return ["round", ["q", f.numerator, f.denominator], digits, "float"]
     if k == "scale":
         a = rng.choice([0, -1, 2.5, 10])
         b = a + rng.choice([1, 0.5, 4, 100])
@@ -128,8 +140,28 @@ def canon(o):
     return o
 
 
+def model_case(case):
+    return case[:3] if case[0] == "round" else case
+
+
+def rhe(q):
+    f = q.numerator // q.denominator
+    r = q - f
+    if r < Fraction(1, 2):
+        return f
+    if r > Fraction(1, 2):
+        return f + 1
+    return f if f % 2 == 0 else f + 1
+
+
 def compare(case, mo, io):
     k = case[0]
+    if k == "round":
+        if case[3] != "float":
+            return None
+        if is_err(mo) or is_err(io):
+            return None if mo[:2] == io[:2] else f"outcome differs: model {sx.show(mo[:2])} impl {sx.show(io[:2])}"
+        return None if int(mo[1]) == int(io[1]) else f"round_floats: model numerator {mo[1]} impl {io[1]}"
     if is_err(mo) or is_err(io):
         a, b = mo[:2], io[:2]
         if a != b and not (b[1] in ("AssertionError", "ZeroDivisionError") and k == "scale"):
@@ -155,6 +187,16 @@ def oracle(case, io, mo):
     flags = [x[0] for x in io if isinstance(x, list) and x and isinstance(x[0], str) and x[0].endswith(("differs", "changed"))]
     if flags:
         return f"{k}: " + " ".join(flags)
+    if k == "round":
+        if is_err(io):
+            return f"round_floats raised {io[1]}"
+        if case[3] != "float":
+            return None if io[1] == "unchanged" else "round_floats changed a number that is not a float"
+        q = Fraction(int(case[1][1]), int(case[1][2]))
+        exp = rhe(q * 10 ** int(case[2]))
+        if int(io[1]) != exp:
+            return f"round_floats({float(q)!r}, {case[2]}) is {int(io[1])}/10^{case[2]}, the nearest (ties to even) is {exp}/10^{case[2]}"
+        return None if io[2] == "nearest-double" else "the result is not the double nearest to the rounded decimal"
     if k == "scale":
         a, b, c, d, sh = [fl(x) for x in case[1:6]]
         vs = [fl(x) for x in case[6:]]
@@ -310,6 +352,8 @@ def nontrivial(case, io):
     k = case[0]
     if k == "scale":
         return fl(case[5]) != 0
+    if k == "round":
+        return case[3] == "float" and int(case[2]) > 0
     if k == "closest":
         d = [int(x) for x in case[2:]]
         return len(set(d)) < len(d) or len(d) >= 3
